@@ -133,6 +133,7 @@ func init() {
 		Gen: func(c *RunCtx) []*Batch {
 			r := c.R
 			b := evalBatch("C02", "optimise")
+			probeNonBoolOperand(c)
 			n := c.N(260, 12000)
 			groups, nontriv := 0, 0
 			for k := 0; k < n; k++ {
@@ -237,14 +238,21 @@ func init() {
 							Sample: map[string]interface{}{"source": t.Src(), "binding": fmt.Sprint(bind.Vals), "costs": costs}})
 					}
 				}
-				// (b) reordering off: the unoptimised value
+				// (b) reordering off: the unoptimised value. Outside the clause's domain - an and/or with a NON-boolean operand,
+				// e.g. (|| 3 b): unoptimised evaluation never applies the operator when the last operand decides, a fast
+				// operator applies it to both leaves and reports the type error - the difference is a recorded finding of the
+				// pinned tree (known_findings.json), reported under its own signature
 				if runs[0].cerr == nil && runs[0].err == nil && runs[0].pan == nil {
+					sigB := "c02-reorder-off"
+					if !andOrWellTyped(t) {
+						sigB = "c02-nonboolean-operand-before-deciding-last-operand"
+					}
 					for mask := 0; mask < 8; mask++ {
 						if runs[mask].cerr != nil && cerrCode(runs[mask].cerr) != 9 && cerrCode(runs[mask].cerr) != 0 {
 							continue // rejected by a capacity limit after flattening: no value is returned, none is changed
 						}
 						if runs[mask].cerr != nil || runs[mask].err != nil || !valEq(runs[mask].val, runs[0].val) {
-							c.Direct = append(c.Direct, DirectViolation{What: fmt.Sprintf("Reordering off, subset %d: unoptimised evaluation returns %v but this configuration returns %v / %v", mask, runs[0].val, runs[mask].val, runs[mask].err), Sig: "c02-reorder-off",
+							c.Direct = append(c.Direct, DirectViolation{What: fmt.Sprintf("Reordering off, subset %d: unoptimised evaluation returns %v but this configuration returns %v / %v", mask, runs[0].val, runs[mask].val, runs[mask].err), Sig: sigB,
 								Sample: map[string]interface{}{"source": t.Src(), "binding": fmt.Sprint(bind.Vals)}})
 						}
 					}
@@ -424,4 +432,66 @@ func constRichTree(r *Rand) *GT {
 		t = gop(pick(r, eqNames), t, gop(pick(r, notNames), gop(pick(r, notNames), inner)))
 	}
 	return t
+}
+
+// boolTyped: the expression certainly yields a boolean whenever it yields a value
+func boolTyped(t *GT) bool {
+	switch t.Kind {
+	case "const":
+		_, ok := t.Val.(bool)
+		return ok
+	case "var":
+		return contains(boolVars, t.Name)
+	case "if":
+		return len(t.Ch) == 3 && boolTyped(t.Ch[1]) && boolTyped(t.Ch[2])
+	case "op":
+		if contains(andNames, t.Name) || contains(orNames, t.Name) || contains(notNames, t.Name) || contains(cmpNames, t.Name) || contains(eqNames, t.Name) {
+			return true
+		}
+		switch t.Name {
+		case "xor", "between", "in", "overlap", "c_yes", "c_no", "ne", "!=":
+			return true
+		}
+	}
+	return false
+}
+
+// andOrWellTyped: every operand of every and/or is boolean-typed
+func andOrWellTyped(t *GT) bool {
+	if t.Kind == "op" && (contains(andNames, t.Name) || contains(orNames, t.Name)) {
+		for _, ch := range t.Ch {
+			if !boolTyped(ch) {
+				return false
+			}
+		}
+	}
+	for _, ch := range t.Ch {
+		if !andOrWellTyped(ch) {
+			return false
+		}
+	}
+	return true
+}
+
+// probeNonBoolOperand replays the recorded C02 finding against the real code: a non-boolean operand in front of a deciding
+// last operand of and/or - unoptimised evaluation returns the last operand's value, FastEvaluation alone (Reordering off)
+// makes the same expression a type error.
+func probeNonBoolOperand(c *RunCtx) {
+	for _, src := range []string{"(or 3 b)", "(and 7 b)", "(|| 3 b)"} {
+		vals := map[string]interface{}{"b": src != "(and 7 b)"}
+		plain := eval.NewConfig(eval.RegVarAndOp(vals), eval.Optimizations(false))
+		fast := eval.NewConfig(eval.RegVarAndOp(vals), eval.Optimizations(false), eval.Optimizations(true, eval.FastEvaluation))
+		e1, err1, p1 := compileSafe(plain, src)
+		e2, err2, p2 := compileSafe(fast, src)
+		if err1 != nil || err2 != nil || p1 != nil || p2 != nil {
+			continue
+		}
+		v1, er1 := e1.Eval(eval.NewCtxFromVars(plain, vals))
+		v2, er2 := e2.Eval(eval.NewCtxFromVars(fast, vals))
+		if er1 == nil && (er2 != nil || v1 != v2) {
+			c.Direct = append(c.Direct, DirectViolation{What: fmt.Sprintf("Reordering off, %s: unoptimised evaluation returns %v but with FastEvaluation it returns %v / %v", src, v1, v2, er2),
+				Sig: "c02-nonboolean-operand-before-deciding-last-operand", Sample: map[string]interface{}{"source": src, "binding": fmt.Sprint(vals)}})
+			return
+		}
+	}
 }
